@@ -290,7 +290,7 @@ func c02Docs(set string) []c02Doc {
 func init() {
 	Register(Meta{
 		ID: "C02", Level: "exploration",
-		Rule: "every path AST with <=L leaves over {ex.p, ex.q, ex.p^, ex.q^, @type} with n-ary and nested sequences/alternatives, canonical layout (+ a redundantly parenthesised variant), on every graph with <=E edges over 3 nodes x 2 predicates x 2 literals up to node renaming, plus a suite of collision graphs (cycle, diamond, self-loop, literal mid-path, shared values, chain of 4, complete graph, two routes); every node is a focus node. Observers: `in:[__none__]` (set of reached values) and `maxCount:0` (number of distinct values). Oracle = set-valued denotation by structural recursion. Non-trivial = (path,document) pairs where some focus node has a non-empty denotation; distinct by path text x document.",
+		Rule:        "every path AST with <=L leaves over {ex.p, ex.q, ex.p^, ex.q^, @type} with n-ary and nested sequences/alternatives, canonical layout (+ a redundantly parenthesised variant), on every graph with <=E edges over 3 nodes x 2 predicates x 2 literals up to node renaming, plus a suite of collision graphs (cycle, diamond, self-loop, literal mid-path, shared values, chain of 4, complete graph, two routes); every node is a focus node. Observers: `in:[__none__]` (set of reached values) and `maxCount:0` (number of distinct values). Oracle = set-valued denotation by structural recursion. Non-trivial = (path,document) pairs where some focus node has a non-empty denotation; distinct by path text x document.",
 		Assumptions: []string{"values are IRIs or plain string literals (typed/language-tagged literals are outside the alphabet)"},
 	}, c02Gen, c02Run)
 }
